@@ -304,6 +304,19 @@ fn main() {
                 for input in ["auto", "semver", "pep440"] { judge(&ctx, &sr, input, &mut st); }
             }
         }
+        // a remote-tracking ref with the branch's own short name (refs/remotes/<name>): another way for a short name to be ambiguous
+        {
+            let tags = vec![base.clone()];
+            repo.set_tags(&tags);
+            gitx::git(&repo.dir, &["update-ref", &format!("refs/remotes/{name}"), &repo.shas[0]], None);
+            for head in [Head::Branch(name.to_string()), Head::Detached(2)] {
+                repo.set_head(&head);
+                st.inc("states"); st.inc("refname_states");
+                let label = format!("branch {name:?} with remote-tracking ref refs/remotes/{name}, tags [\"v1.0.0@0\"] head {head:?}");
+                let sr = StateRef { shape: &shape, tags: &tags, head: &head, wt: WorkTree::Clean, repo: &repo, label, cdir: None };
+                for input in ["auto", "semver"] { judge(&ctx, &sr, input, &mut st); }
+            }
+        }
         repo.remove();
         st
     }).reduce(Stats::default, Stats::merge);
